@@ -228,5 +228,15 @@ def run_case(case, seed):
                            'reported %r, Rayleigh quotient %r' % (lam_, np.vdot(xv, A @ xv) / np.vdot(xv, (Bm @ xv) if g else xv)))
                     r.true('power_method:converged', abs(lam_ - evals[target]) <= 1e-7 and overlap(xv, (Bm @ evecs[:, target]) if False else evecs[:, target]) >= 1 - 1e-7,
                            'sigma %g: got %r expected %r overlap %r' % (sigma, lam_, evals[target], overlap(xv, evecs[:, target])))
+            for reps in (1, 2, 3):
+                with r.op('power_method:call'):
+                    lam_, x = evp.power_method(Aop, gm, operator_gevp=Bop, repeats=reps, sigma=float(evals[target] + 0.3))
+                    if meta_problem(x) is None:
+                        xv = vec(x)
+                        want_rq = np.vdot(xv, A @ xv) / np.vdot(xv, (Bm @ xv) if g else xv)
+                        r.true('power_method:rayleigh:unconverged', abs(lam_ - want_rq) <= 1e-8 * (1 + abs(want_rq)),
+                               'repeats=%d: reported %r, Rayleigh quotient of the returned tensor %r' % (reps, lam_, want_rq))
+                        if not g:
+                            r.true('power_method:unit-norm', abs(np.linalg.norm(xv) - 1) <= 1e-8, 'norm %r' % np.linalg.norm(xv))
         r.true('power_method:inputs-unchanged', unchanged(gm, sgm) and unchanged(Aop, sA), 'power_method modified its inputs')
     return r
